@@ -173,6 +173,13 @@ func runC01(e *Env) {
 			c01FragCheck(e, it.p, it.src)
 			// the Lean VM model on the Lean-compiled bytecode against the real run: outcome, and the
 			// dispatch trace instruction for instruction (c01trace.go)
+			if _, d := c01TraceCompare(it.go_, it.tr, vreps[i]); d != "" && d != "skip" && d != "outcome" {
+				// shrink to a small program that still takes different steps (replay quality)
+				small := Shrink(it.p, func(q *N) bool { return c01TraceDiffers(e, q) })
+				ssrc := Src(small)
+				sout, str := EvalSrcTraced(ssrc, 5*time.Second)
+				c01TraceCheck(e, ssrc, goOutcome(sout), str, e.O.Ask("C01", "vmtrace", Sexp(small), c01Globals))
+			}
 			vreps[i] = c01TraceCheck(e, it.src, it.go_, it.tr, vreps[i])
 			vf := strings.Split(vreps[i], "\t")
 			switch {
